@@ -275,6 +275,20 @@ def handler_names(body, out=None):
 @st.composite
 def _case(draw, tier):
     kind = draw(st.sampled_from(['gen', 'gen', 'agen', 'agen', 'coro']))
+    if draw(st.integers(0, 5)) == 0:
+        # handler-focused case: the object is suspended inside a try block whose handler names exactly the exception that is then
+        # thrown into it (every class of EXCS, BaseException-only ones first), with each handler action
+        exc = draw(st.sampled_from(['MyBase', 'StopAsyncIteration', 'StopIteration', 'KeyError', 'ValueError']))
+        action = draw(st.sampled_from(['yield', 'return', 'pass', 'reraise', 'raise-other'] if kind != 'coro' else
+                                      ['await', 'return', 'pass', 'reraise', 'raise-other']))
+        suspend = ['await'] if kind == 'coro' else draw(st.sampled_from([['yield', 1], ['recv', 0]]))
+        fin = draw(st.sampled_from([None, None, [['log', 'a']]]))
+        body = [['try', [suspend] + draw(st.lists(st.sampled_from([['log', 'b'], suspend]), max_size=1)), [[exc, action]], fin]] + \
+            draw(st.lists(st.sampled_from([['log', 'a'], suspend]), max_size=2))
+        ann = draw(st.sampled_from({'gen': ['Generator', 'none', 'Iterator'], 'agen': ['AsyncGenerator', 'none', 'AsyncIterator'],
+                                    'coro': ['int', 'none', 'Any']}[kind]))
+        ops = [['next'], ['throw', exc]] + draw(st.lists(OPS, max_size=3))
+        return {'kind': kind, 'body': body, 'ann': ann, 'ops': ops, 'wraps': None}
     body = draw(stmts(draw(st.sampled_from([0, 1, 1, 2])), kind))
     ann = draw(st.sampled_from({'gen': ['none', 'Generator', 'Generator', 'Iterator', 'Iterable'],
                                 'agen': ['none', 'AsyncGenerator', 'AsyncGenerator', 'AsyncIterator'],
